@@ -37,6 +37,11 @@ func corpus(w *lib.Writer) {
 		Step{Op: "append", How: "lua.insert", V: vp(I(1))}, Step{Op: "append", How: "lua.insert", V: vp(I(2))},
 		Step{Op: "append", How: "lua.insert", V: vp(I(3))}, Step{Op: "append", How: "lua.insert", V: vp(I(4))},
 		get("lua.index", I(4)))
+	// C09-2, third face (hunt2 C18 obs-2): the lost element, then a second value for the same key
+	add("corpus-smallmai", 4, "lua",
+		Step{Op: "append", How: "lua.insert", V: vp(I(1))}, Step{Op: "append", How: "lua.insert", V: vp(I(2))},
+		Step{Op: "append", How: "lua.insert", V: vp(I(3))}, Step{Op: "append", How: "lua.insert", V: vp(I(4))},
+		get("lua.index", I(4)), set("lua.index", I(4), I(9)), get("lua.index", I(4)), Step{Op: "dump", How: "go.ForEach"}, Step{Op: "walk", How: "lua.pairs"})
 	// 1 and 1.0 one key, "1" another; storing nil deletes; last write wins
 	add("corpus", defaultMai, "CreateTable",
 		set("lua.index", I(1), S("int")), set("lua.index", S("1"), S("str")), get("lua.index", tv.Num(1.0)), get("lua.index", S("1")),
